@@ -88,7 +88,7 @@ def gen_ulist_history(rng):
             elif m == 'imul':
                 lines.append('(c16 u.imul %d %d)' % (h, rng.choice([0, 1, 2, 3])))
             else:
-                lines.append('(c16 u.%s %d %d %s)' % (m, h, rng.choice([0, 0, 1, 2, 3, 5]), e))
+                lines.append('(c16 u.%s %d %d %s)' % (m, h, rng.choice([0, 0, 1, 2, 3, 5, -1, -2, -7]), e))
             continue
         elif r < 0.35:
             lines.append('(c16 u.copy %d)' % h)
@@ -382,6 +382,9 @@ def all_graphs(n):
 
 
 def generate(rng, tier):
+    for c in (1, 2, 3, 4):
+        # the Lean list DAHeap.shadowed against dir(cls) (the python copy MODEL_SHADOWED is only used by the K1 matcher)
+        yield dict(tag='shadowed-names', lines=['(c16 shadowed %d)' % c])
     n = 350 if tier == 'quick' else 8000
     for _ in range(n):
         yield gen_ulist_history(rng)
@@ -597,6 +600,8 @@ def run_line(state, sx):
         heap.append(res)
         state['snap'].append(list(res))
         return 'ok ' + enc(list(res))
+    if op == 'shadowed':
+        return 'ok ' + enc(sorted(a for a in dir(_cls(int(args[0]))) if not a.startswith('_')))
     if op.startswith('h.'):
         return _run_heap(state, op, args)
     if op.startswith('d.'):
@@ -692,7 +697,12 @@ def compare(case, i, line, ir, mr):
     if ci == cm:
         return None
     op = proto.parse(line)[1]
-    if case.get('tag', '').endswith('-empty') or _line_has_empty(line):
+    if op == 'shadowed':
+        a, b = proto.parse(ir[3:])[1:], proto.parse(mr[3:])[1:]
+        if sorted(a) == sorted(b):
+            return None
+        return ('divergence', 'public attributes of class %s: dir(cls) gives %s, the model (DAHeap.shadowed) lists %s' % (line, sorted(map(proto.dec, a)), sorted(map(proto.dec, b))))
+    if op in ('d.add', 'h.add') and (case.get('tag', '').endswith('-empty') or _line_has_empty(line)):
         return ('divergence', 'empty dict values are outside the quantifier of C15 (Dict + other): implementation %s, model %s' % (ir, mr))
     try:
         if _canon_reply(ir, False) == _canon_reply(mr, False):
@@ -785,8 +795,10 @@ def laws(rng, tier, ctx):
             u, ref = ulist(xs), _dedup(xs)
             proto_op = {'append': '(c16 u.append 0 %s)' % enc(x), 'extend': '(c16 u.extend 0 %s)' % enc(ys), '+=': '(c16 u.iadd 0 %s)' % enc(ys),
                         'insert': '(c16 u.insert 0 %d %s)' % (i, enc(x)), 'u[i]=x': '(c16 u.setitem 0 %d %s)' % (i, enc(x)),
-                        'u[i:j]=xs': '(c16 u.extend 0 %s)' % enc(ys), '*=': '(c16 u.imul 0 %d)' % n}[name]
-            case = dict(tag='law-ulist-inplace', lines=['(c16 u.new %s)' % enc(xs), proto_op])
+                        'u[i:j]=xs': None, '*=': '(c16 u.imul 0 %d)' % n}[name]
+            case = dict(tag='law-ulist-inplace', lines=['(c16 u.new %s)' % enc(xs)] + ([proto_op] if proto_op else []))
+            if proto_op is None:
+                case['note'] = 'u[%d:%d] = %s (slice assignment has no protocol line: this finding does not replay)' % (i, i + 1, enc(ys))
             count += 1
             try:
                 f(ref, x, ys, i, n)
